@@ -12,7 +12,7 @@ import (
 func init() { Checks["C14"] = CheckC14 }
 
 // C14 step encoding (core.Case): Kind = function name; In = document;
-// Ints = [handler mode, k, strategy bits, re-entry mode, repeat count]
+// Ints = [handler mode, k, strategy bits, re-entry mode, repeat count, input aliasing (0 fresh slice, 1 arena in place, 2 arena at an offset)]
 //   handler mode: 0 decline, 1 strategy bits (decline/exact), 2 abort with an error at call k
 //   re-entry mode (what the handler does on its data WITH THE ENCLOSING CALL'S BUFFER before
 //   answering): 0 nothing, 1 SkipValue, 2 Valid, 3 SkipValueFast, 4 nested traversal of
@@ -115,9 +115,8 @@ func (h *c14Handler) HandleObjectValue(key, data []byte) (int, error) {
 	return h.handle(data)
 }
 
-// c14Call runs one step with the given buffer (nil = the model).
-func c14Call(step *core.Case, buf *rjson.Buffer) (out c14Outcome) {
-	in := []byte(step.In)
+// c14Call runs one step with the given buffer (nil = the model) on the given input slice.
+func c14Call(step *core.Case, buf *rjson.Buffer, in []byte) (out c14Outcome) {
 	ints := append(append([]int64(nil), step.Ints...), 0, 0, 0, 0)
 	h := &c14Handler{buf: buf, mode: ints[0], k: ints[1], bits: uint64(ints[2]), re: ints[3], trace: &out.trace, limit: int64(len(in)) + 1}
 	var err error
@@ -145,7 +144,13 @@ func c14Call(step *core.Case, buf *rjson.Buffer) (out c14Outcome) {
 
 // c14Runner owns the one Buffer of a history.
 type c14Runner struct {
-	buf     rjson.Buffer
+	buf rjson.Buffer
+	// arena: the caller's read buffer. With Ints[5] = 1 the step's document is written into the
+	// arena IN PLACE (same first byte as the previous such document) and the library sees
+	// arena[:len]: a Buffer that remembers anything about an input by slice identity is exposed
+	// by the usual "read the next message into the same []byte" pattern. Ints[5] = 2: the
+	// document is a sub-slice of the arena starting at a later offset.
+	arena   []byte
 	grew    bool // an earlier call nested >= 8 deep (stack growth)
 	aborted bool // an earlier call ended in an error / false verdict / handler abort
 }
@@ -157,14 +162,28 @@ type c14StepInfo struct {
 
 func (r *c14Runner) step(step *core.Case) (info c14StepInfo, err error) {
 	perr := core.Catch(func() error {
-		want := c14Call(step, nil)
-		got := c14Call(step, &r.buf)
-		ints := append(append([]int64(nil), step.Ints...), 0, 0, 0, 0, 0)
+		ints := append(append([]int64(nil), step.Ints...), 0, 0, 0, 0, 0, 0)
+		want := c14Call(step, nil, append([]byte(nil), step.In...))
+		in := append([]byte(nil), step.In...)
+		if ints[5] != 0 {
+			if r.arena == nil {
+				r.arena = make([]byte, 1<<16)
+			}
+			if len(step.In) <= len(r.arena)/2 {
+				off := 0
+				if ints[5] == 2 {
+					off = 3
+				}
+				n := copy(r.arena[off:], step.In)
+				in = r.arena[off : off+n]
+			}
+		}
+		got := c14Call(step, &r.buf, in)
 		// Ints[4] = repeat count: the same call made again and again on the same Buffer (a
 		// counter that leaks on some exit path needs thousands of calls to matter); every
 		// repetition must give the model's outcome
 		for rep := int64(1); rep < ints[4] && got.equal(want); rep++ {
-			got = c14Call(step, &r.buf)
+			got = c14Call(step, &r.buf, in)
 			if !got.equal(want) {
 				return fmt.Errorf("%s with the reused Buffer, repetition %d of %d: (err==nil %v, p %d, verdict %v, trace %v); with no buffer: (err==nil %v, p %d, verdict %v, trace %v)",
 					step.Kind, rep+1, ints[4], got.errNil, got.p, got.verdict, clip(got.trace), want.errNil, want.p, want.verdict, clip(want.trace))
